@@ -42,7 +42,8 @@ MANIFEST = dict(
          'String.__call__ (own namespace and sub-template role) has exactly the documented sources on the stack in the documented '
          'order when the blocks are rendered, client tuples pushed in order; initvars: keyword defaults beat the mapping, '
          'underscore keys skipped; With/Let/if-cache/try-handler bindings are the top entry during the body and gone after; '
-         'Eval.eval fetches names with call=0; InstanceDict reads the requested attribute once (through the guard when there is one).',
+         'Eval.eval fetches names with call=0; InstanceDict reads the requested attribute once (through the guard when there is one).'
+         ' Let.__init__: a quoted binding (also one that is a bare name) compiles to an expression evaluation, an unquoted one to a name lookup.',
     note='Trusted: pyvc, z3, CPython ast. Assumed: opaque mappings/callables obey the stack protocol; Acquisition.aq_base does '
          'not call anything; the top-level variant assumes the mapping argument has no taintWrapper.',
     technique='contract-based deductive verification (pyvc symbolic execution + ghost trace obligations, z3)',
